@@ -10,6 +10,11 @@ The oracle is the small reference model :class:`Ref` below, written from the pro
 period), not from py-pde's formulas.  See DESIGN.md, C12.
 
 One *case* = one grid configuration; the worker loops over all clause families and lattice points.
+Signatures are ``<grid class>|<flag>|<function>|<clause>``; every violation carries a minimal replay
+case for :func:`replay_one` (the grid plus the failing point / pair / draws), verified to reproduce
+in isolation before it is reported.  The known defect D3 (the z-period of ``CylindricalSymGrid`` is
+applied to the Cartesian *y* component by ``difference_vector``) surfaces as
+``CylindricalSymGrid|periodic_z=True|difference_vector|<clause>``.
 
 Tolerances (``EPS = 2**-52``; nothing is tuned): a float result may differ from the reference by
 ``K = 16`` roundings *at the scale of the operands of the formula* (``|x_min|``, ``|x_max|``, ``|x|``;
@@ -566,14 +571,14 @@ def fam_points(G, R, col, cells, ang):
     # ---- every conversion against the reference ----
     S = {}
     spec = [
-        ("cell", "grid", cells, tol_g, False),
-        ("grid", "cell", g, tol_c, False),
-        ("cell", "cartesian", cells, tol_x, False),
-        ("grid", "cartesian", g, tol_x, False),
-        ("cartesian", "grid", X, 2 * tol_g, False),
-        ("cartesian", "cell", X, 2 * tol_c, False),
+        ("cell", "grid", cells, tol_g),
+        ("grid", "cell", g, tol_c),
+        ("cell", "cartesian", cells, tol_x),
+        ("grid", "cartesian", g, tol_x),
+        ("cartesian", "grid", X, 2 * tol_g),
+        ("cartesian", "cell", X, 2 * tol_c),
     ]
-    for src, dst, inp, tol, _ in spec:
+    for src, dst, inp, tol in spec:
         S[src, dst] = _call_forms(
             col, "transform", "transform", f"transform {src}->{dst}", T(src, dst), inp, tol, rc,
         )
@@ -759,10 +764,11 @@ def fam_random(G, R, col, only=None):
                 col.outs.add("random:on a face (contains_point not decided)")
                 if not cont:
                     col.outs.add("random:on a face and reported outside")
-                    col.info["doubtful:random point on a face reported as not contained"] += 1
+                    side = "upper" if bool(np.any(c > R.N)) else "lower"
+                    key = f"doubtful:random point on the {side} face reported as not contained|{R.cls}"
+                    col.info[key] += 1
                     col.examples.setdefault(
-                        "doubtful:random point on a face reported as not contained",
-                        {"grid": R.cfg, "call": what, "point": _f(p), "cell": [repr(float(v)) for v in c]},
+                        key, {"grid": R.cfg, "call": what, "point": _f(p), "cell": [repr(float(v)) for v in c]}
                     )
             else:
                 col.check(
@@ -1021,7 +1027,7 @@ def enumerate_grids(tier, seed):
         if quick
         else [(a, b) for a in (1, 2, 3, 4, 5) for b in (1, 2, 3, 4, 5)] + [(7, 2), (2, 7)]
     )
-    s3 = [(1, 1, 1), (2, 1, 3), (1, 3, 2), (3, 2, 1)] if quick else [
+    s3 = [(1, 1, 1), (2, 1, 3), (1, 3, 2), (3, 2, 1), (2, 2, 2)] if quick else [
         (1, 1, 1), (2, 1, 3), (1, 3, 2), (3, 2, 1), (2, 2, 2), (4, 3, 2), (1, 1, 5), (2, 4, 1)]
     kinds = KIND_NAMES
     # 3d bounds: covering design (every kind on every axis), rotated by the seed; thorough adds the
@@ -1086,7 +1092,7 @@ def main(run):
         cfgs = sorted(cfgs, key=lambda c: -float(np.prod([len(axis_lattice(n)) for n in np.atleast_1d(c["shape"])])))
         cases = [
             {"grid": cfg, "seed": run.seed,
-             "pair_size": 7 if (run.tier != "quick" or len(np.atleast_1d(cfg["shape"])) < 3) else 5}
+             "pair_size": 6 if (run.tier == "quick" and len(np.atleast_1d(cfg["shape"])) == 3) else 7}
             for cfg in cfgs
         ]
         res = run.explore("checks.c12:grid_worker", cases, mode="I", part=cls, chunksize=1, limit=900, collect=True)
@@ -1102,7 +1108,7 @@ def main(run):
     }
     run.notes["grid_configurations"] = {k: len(v) for k, v in grids.items()}
     run.notes["point_lattice_per_axis"] = "cell coordinates {0.5, N-0.5, 0, N, 0.3, N/2, +-1e-9, N+-1e-9, -0.7, N+1.2, -3.7N, 4.3N}, all combinations across axes"
-    run.notes["pair_lattice_per_axis"] = "{0.3, N-0.1, N/2+0.3, N+1.2, 0.1, N/2, -0.7} (first 5 for 3-d grids in the quick tier), all ordered pairs of all combinations"
+    run.notes["pair_lattice_per_axis"] = "{0.3, N-0.1, N/2+0.3, N+1.2, 0.1, N/2, -0.7} (without -0.7 for 3-d grids in the quick tier), all ordered pairs of all combinations across axes"
     run.notes["random_draws"] = [repr(v) for v in DRAWS]
     run.notes["tolerances"] = (
         f"{K:g} roundings (2**-52) at operand scale for coordinates, {KV:g} at the scale of the full ball of the upper "
